@@ -415,3 +415,4 @@ FAMILIES = [
            imports=["Model.Core", "Model.Prog", "Model.Parser", "Model.Roundtrip"], project=project,
            describe=progs.describe, shrink=progs.shrink, shard=30, coq_shard=40, case_timeout=30),
 ]
+
